@@ -203,10 +203,21 @@ theorem kernelMethod_total (hflat : sourceVariant.fixFlat = true) (m : Method) (
   · exact ⟨r.shift, r.cost, r.flag, by rw [kernelMethod_eq, hr]; rfl⟩
   · rw [hflat] at hff; cases hff
 
+/-! ## The per-pixel decision of `loop_refinement` -/
+
+/-- the test that lets the method run, as the source writes it today (`Generated.Kernels.refineGuard`, an expression
+    translated out of the loop: `dsp` the sample index, `n_disp` the length of the cost row, `disp[row, col]`,
+    `d_min`, `d_max`), is the model's `notAtEnd` at the variant T11 reads in the same file -/
+theorem refineGuard_eq (P : Params) (hP : P.variant.fixEnds = sourceVariant.fixEnds) (n : Nat) (dv : ℚ) (dsp : Int) :
+    refineGuard dsp (n : Int) dv P.dmin P.dmax = notAtEnd P n dv dsp := by
+  simp only [refineGuard, notAtEnd, hP, sourceVariant, Generated.RefineCC.endTestOnIndex]
+  simp [bne, beq_eq_decide]
+
 /-! ## Pixel and map level: the loop body with the generated kernels in place of the hand-written methods -/
 
-/-- `refinePixel` of Model/Refinement.lean, the call of the method replaced by the kernel the source defines
-    (arguments as `loop_refinement` passes them: the three cells, `disp[row, col]`, the measure string) -/
+/-- `refinePixel` of Model/Refinement.lean, the test that lets the method run and the call of the method replaced by
+    what the source defines (arguments as `loop_refinement` passes them: the three cells, `disp[row, col]`, the
+    measure string) -/
 def refinePixelK (P : Params) (x : PixIn) : Res PixOut :=
   if Flags.isInvalid x.flag then .ok ⟨.nan, x.d, x.flag⟩
   else
@@ -218,7 +229,7 @@ def refinePixelK (P : Params) (x : PixIn) : Res PixOut :=
       | none => .err .outOfBounds
       | some .nan => .ok ⟨.nan, x.d, x.flag⟩
       | some (.num c1) =>
-        if notAtEnd P x.costs.length dv dsp then
+        if refineGuard dsp (x.costs.length : Int) dv P.dmin P.dmax then
           match pyGet x.costs (dsp - 1), pyGet x.costs (dsp + 1) with
           | some c0, some c2 =>
             match decRes (kernelMethod P.method c0 (.num c1) c2 x.d (measureOf P.isMax)) with
@@ -227,9 +238,10 @@ def refinePixelK (P : Params) (x : PixIn) : Res PixOut :=
           | _, _ => .err .outOfBounds
         else .ok ⟨.num c1, x.d, addFlag P.variant.fixOr x.flag stoppedBit⟩
 
-theorem refinePixelK_eq (P : Params) (hP : P.variant.fixFlat = sourceVariant.fixFlat) (x : PixIn) :
+theorem refinePixelK_eq (P : Params) (hP : P.variant.fixFlat = sourceVariant.fixFlat)
+    (hE : P.variant.fixEnds = sourceVariant.fixEnds) (x : PixIn) :
     refinePixelK P x = refinePixel P x := by
-  simp only [refinePixelK, refinePixel, ← runMethod_eq_kernel, hP]
+  simp only [refinePixelK, refinePixel, ← runMethod_eq_kernel, hP, refineGuard_eq P hE]
   try rfl
 
 def loopRefinementK (P : Params) (g : List (List PixIn)) : Res (List (List PixOut)) :=
@@ -238,9 +250,10 @@ def loopRefinementK (P : Params) (g : List (List PixIn)) : Res (List (List PixOu
 /-- the whole step with the regenerated kernels is the model's step: every theorem of `Properties/C06.lean` about
     `refinePixel` / `loopRefinement` at the source's variant (`loop_spec`, `loop_total`, `refinePixel_total`, …) is a
     theorem about the loop running the functions the source defines today -/
-theorem loopRefinementK_eq (P : Params) (hP : P.variant.fixFlat = sourceVariant.fixFlat) (g : List (List PixIn)) :
+theorem loopRefinementK_eq (P : Params) (hP : P.variant.fixFlat = sourceVariant.fixFlat)
+    (hE : P.variant.fixEnds = sourceVariant.fixEnds) (g : List (List PixIn)) :
     loopRefinementK P g = loopRefinement P g := by
-  have : refinePixelK P = refinePixel P := funext (refinePixelK_eq P hP)
+  have : refinePixelK P = refinePixel P := funext (refinePixelK_eq P hP hE)
   simp only [loopRefinementK, loopRefinement, this]
 
 /-- **C06 for the source as it is now, kernels included**: `source_pixel_spec` with the regenerated kernels -/
@@ -250,7 +263,7 @@ theorem kernel_pixel_spec (P : Params) (x : PixIn) (tol : ℚ) (hP : P.variant =
     (∃ o, refinePixelK P x = .ok o ∧ specOK P x o tol = true) ∨
     (P.method = .quadratic ∧ P.variant.fixFlat = false ∧ refinePixelK P x = .err .zeroDivision
       ∧ ∃ d c, classify P x = .refine d c c c) := by
-  rw [refinePixelK_eq P (by rw [hP]) x]
+  rw [refinePixelK_eq P (by rw [hP]) (by rw [hP]) x]
   exact source_pixel_spec P x tol hP hp htol hnt
 
 /-! ## Outside the hand model: a NaN centre
